@@ -103,6 +103,28 @@ func (h *c07h) extraJobs(root *rng, tier string, jobs *[]*c07job) {
 		s := h.genS(root.fork(), "after-cancel-before-eval")
 		add(func(j *c07job) { h.runS(j, s, "after-cancel-before-eval") })
 	}
+	// stream Q: the shape of the argument expression: every cell, with a seeded value
+	for _, q := range h.allQ(2 + root.intn(90)) {
+		q := q
+		add(func(j *c07job) { h.runQ(j, q) })
+	}
+	// stream R: go / defer statements, every form x callee kind x argument kind, in one child with GOMAXPROCS(1)
+	var gs []c07G
+	reps := 1
+	if tier == "thorough" {
+		reps = 4
+	}
+	for rep := 0; rep < reps; rep++ {
+		for _, f := range []string{"go", "defer"} {
+			for _, c := range c07calleeKinds {
+				for _, a := range c07argKinds {
+					x := root.intn(1000)
+					gs = append(gs, c07G{Form: f, Callee: c, Arg: a, A: x, B: x + 1 + root.intn(1000)})
+				}
+			}
+		}
+	}
+	add(func(j *c07job) { h.runStmts(j, gs) })
 	nI := 2
 	if tier == "thorough" {
 		nI = 25
